@@ -336,6 +336,21 @@ let handle (toks : string list) : string =
         let s = crash_state e (zint now) p (nat_of_int k) s0 in
         Printf.sprintf "%s;%s;%d" (show s.cs_dest) (show s.cs_temp) (if replans c e s.cs_dest then 1 else 0)) in
       Printf.sprintf "ok=%d temp=%d states=%s" (if program_ok c e d0 p then 1 else 0) (if uses_temp c d0 then 1 else 0) (String.concat "|" states)
+  | ["DB"; _dir; ops] ->
+      let items = String.split_on_char ',' ops in
+      let (_, outs) = List.fold_left (fun (d, acc) op -> match String.split_on_char ':' op with
+        | ["s"; p; mt; sz; sum] -> (db_store d { se_path = [nint p]; se_is_dir = false; se_size = nint sz; se_mtime = zint mt; se_content = nint sum; se_sparse = false }, acc)
+        | ["g"; p; mt; sz] -> (d, (match db_lookup d [nint p] (zint mt) (nint sz) with Some h -> "h" ^ string_of_int (int_of_n h) | None -> "m") :: acc)
+        | _ -> failwith "db op") ([], []) items in
+      if outs = [] then "-" else String.concat "," (List.rev outs)
+  | ["DC"; ops] ->
+      let items = String.split_on_char ',' ops in
+      let pth p = if p = "0" then [] else [nint p] in
+      let (_, outs) = List.fold_left (fun (c, acc) op -> match String.split_on_char ':' op with
+        | ["u"; p; mt] -> (dc_update c [{ se_path = pth p; se_is_dir = true; se_size = N0; se_mtime = zint mt; se_content = N0; se_sparse = false }], acc)
+        | ["q"; p; mt] -> (c, (match dc_dir_mtime c (pth p) with Some m -> if mtime_matches m (zint mt) then "0" else "1" | None -> "1") :: acc)
+        | _ -> failwith "dc op") (dc_empty, []) items in
+      if outs = [] then "-" else String.concat "," (List.rev outs)
   | _ -> "BADCASE"
 
 let () =
